@@ -40,7 +40,17 @@ func init() {
 		ID: "C15", Mode: "c15",
 		Families: []*ProgCheck{{Family: "F-types", Synth: typesSupported, Bound: map[string]int{"quick": 1, "thorough": 2}}},
 		Targets:  []string{prog.TGounions, prog.TRanddata},
-		Budget:   sharedBudget(2, 3),
+		// deviations in the random answers: quick 2 - program deviations; thorough min(2, 3 - program
+		// deviations) (3 answers off the default on ~900 draw alternatives per program is 10^8 calls)
+		Budget: func(tier string, cost int) int {
+			if tier == "thorough" {
+				if cost == 0 {
+					return 2
+				}
+				return 3 - cost
+			}
+			return 2 - cost
+		},
 		Deadline: map[string]time.Duration{"quick": 8 * time.Minute, "thorough": 50 * time.Minute},
 		Rule:     "programs of F-types (supported forms) compiled with their randdata and gounions outputs; math/rand is replaced by a shim whose every draw is a choice point (all values for n <= 8, {0,1,n-1} above); every sequence of random answers within the shared deviation budget is explored for every generated function; non-trivial = at least one generated function was called",
 		Assumptions: []string{
